@@ -245,3 +245,6 @@ def ORACLE(v, scn, out):
     elif what == 'nosend' and sent:
         bad.append('index update sent coins')
     return bad
+
+from checks import migrate as _migrate
+_migrate.attach(globals(), 'reward')
